@@ -556,7 +556,7 @@ pub fn check(prop: &str, thorough: bool, verif_seed: u64, jobs: u64) -> i32 {
         exit = 1;
         let w = agg_c.first.clone().expect("witness");
         let original_ops = w.spec.ops.len();
-        let (min, tried) = if viol_lines.len() < 3 { shrink(&w, 40, 200) } else { (w.clone(), 0) };
+        let (min, tried) = if viol_lines.len() < 6 { shrink(&w, 40, 200) } else { (w.clone(), 0) };
         let path = write_replay(&min, verif_seed, tried, original_ops);
         // replay once in a fresh process
         let st = Command::new(&exe).args(["replay", &path]).output();
